@@ -62,8 +62,7 @@ FirstSmall == { [delta |-> 2], [maxHtlc |-> Amt], [bw |-> Amt + 37], [disabled |
 Fwd3 == { [delta |-> 2], [base |-> 7, rate |-> 30000, delta |-> 5], [rate |-> 999, delta |-> 3, maxHtlc |-> Amt] }
 In3  == { [inBase |-> 0], [inBase |-> -50, inRate |-> -100000], [inBase |-> 3, inRate |-> 15000] }
 Rich   == Universe = "rich"
-Par    == IF Rich THEN {[base |-> 7, rate |-> 30000, delta |-> 5], [rate |-> 999, delta |-> 3, maxHtlc |-> Amt]}
-                  ELSE FwdSmall
+Par    == FwdSmall
 NNodes == IF Universe = "line4" THEN 4 ELSE 3
 Fwd   == IF Rich THEN FwdFull ELSE FwdSmall
 In    == IF Rich THEN InFull ELSE InSmall
@@ -79,7 +78,7 @@ Graphs3 ==
 Graphs4 ==
   { {Plain(1, "a", "b"), Patch(Plain(1, "b", "a"), i), Patch(Plain(2, "b", "c"), o2),
      Patch(Plain(2, "c", "b"), i2), Patch(Plain(4, "c", "d"), o4), Plain(4, "d", "c")}
-    : i \in InSmall, o2 \in Fwd3, i2 \in In3, o4 \in Fwd3 }
+    : i \in InSmall, o2 \in FwdSmall, i2 \in In3, o4 \in FwdSmall }
 \* outbound fee 7 + 3 % and an inbound discount that exceeds it: the floor is active
 ProbeGraphs ==
   { {Plain(1, "a", "b"), Patch(Plain(1, "b", "a"), [inBase |-> -50, inRate |-> -100000]),
